@@ -33,6 +33,7 @@ type lval struct {
 	path   []pathElem
 	typ    types.Type // type of the designated location
 	anon   string     // detached value (loads only)
+	opaqueBase *lval  // field of an opaque struct: a store havocs the whole struct at opaqueBase
 }
 
 type val struct {
@@ -173,6 +174,7 @@ type FnVC struct {
 	mode     string
 	retTerms []string
 	pendingRefBound [][2]string
+	privCells []*ssa.Alloc
 	ftParams []string
 }
 
@@ -266,12 +268,22 @@ func (vc *FnVC) oblige(kind, desc, guard, cond string, tags []string, pos string
 	o := &Obligation{Name: name, Kind: kind, Desc: desc, Tags: tags, Pos: pos, Fn: vc.key, idx: len(vc.obls), guard: guard, cond: cond}
 	if vc.spec != nil {
 		for suffix, reason := range vc.spec.Unclaimed {
-			if strings.HasSuffix(name, suffix) || strings.Contains(name, suffix) {
+			if strings.HasPrefix(suffix, "kind!=") {
+				if kind != strings.TrimPrefix(suffix, "kind!=") {
+					o.Unclaimed = reason
+				}
+			} else if strings.HasSuffix(name, suffix) || strings.Contains(name, suffix) {
 				o.Unclaimed = reason
 			}
 		}
 	}
 	vc.obls = append(vc.obls, o)
+	if o.Unclaimed != "" {
+		// not claimed (reason recorded): no solver time is spent on it; it is assumed like any checked obligation
+		o.Result = "unclaimed"
+		vc.assume(guard, cond)
+		return
+	}
 	vc.emit("(push 1)")
 	vc.emit("(assert (and %s (not %s)))", guard, cond)
 	vc.emit("(echo \"@obl %d\")", o.idx)
@@ -440,7 +452,47 @@ func (vc *FnVC) heapTyping(name, term, alloc string) {
 	}
 }
 
+// havocAllExcept: whole-heap havoc for a call with unknown frame, keeping the arrays the callee provably cannot write
+// (fields with a complete writers declaration none of whose writers is reachable from the callee).
+func (vc *FnVC) havocAllFor(st *state, callee *ssa.Function) {
+	keep := map[string]string{}
+	for _, h := range vc.eng.protectedHeaps(callee) {
+		if _, ok := vc.eng.heapDescOf(h); ok {
+			keep[h] = vc.hget(st, h)
+		}
+	}
+	vc.havocAll(st)
+	for h, t := range keep {
+		st.heap[h] = t
+	}
+	if len(keep) > 0 {
+		vc.assumption("frame by writers declarations: a callee that cannot reach a declared writer of a field leaves that field unchanged (the declarations are checked by the C06/C18 frame scans)")
+	}
+}
+
 func (vc *FnVC) havocAll(st *state) {
+	// local variables that escape only into locally deferred closures cannot be changed by a callee:
+	// their cells survive the havoc
+	type keep struct {
+		lv *lval
+		t  string
+	}
+	var kept []keep
+	if vc.top != nil {
+		for _, a := range vc.privateCells() {
+			if v, ok := vc.top.vals[a]; ok {
+				lv := vc.deref(v)
+				if lv.heap != "$struct" {
+					kept = append(kept, keep{lv, vc.loadLV(st, lv)})
+				}
+			}
+		}
+	}
+	defer func() {
+		for _, k := range kept {
+			vc.storeLV(st, k.lv, k.t)
+		}
+	}()
 	na := vc.freshConst("alloc", "Int")
 	vc.assume("true", fmt.Sprintf("(>= %s %s)", na, st.alloc))
 	st.alloc = na
@@ -855,4 +907,43 @@ func (vc *FnVC) subSlice(x, sort, lo, hi, mx string) string {
 	vc.decl = append(vc.decl, "")
 	vc.emit("(assert (forall ((%s Int)) (! (= (select %s %s) (select (s.arr %s) (+ %s %s))) :pattern ((select %s %s)))))", k, a, k, x, k, lo, a, k)
 	return fmt.Sprintf("(mk-slice %s (- %s %s) (- %s %s))", a, hi, lo, mx, lo)
+}
+
+// privateCells: escaping locals of the function under verification whose address is used only for loads/stores and as a
+// binding of closures that are themselves only deferred (never passed on): no callee can reach them.
+func (vc *FnVC) privateCells() []*ssa.Alloc {
+	if vc.privCells != nil {
+		return vc.privCells
+	}
+	vc.privCells = []*ssa.Alloc{}
+	for _, b := range vc.fn.Blocks {
+		for _, ins := range b.Instrs {
+			a, ok := ins.(*ssa.Alloc)
+			if !ok || !a.Heap {
+				continue
+			}
+			private := true
+			for _, r := range *a.Referrers() {
+				switch u := r.(type) {
+				case *ssa.Store:
+					if u.Val == a {
+						private = false
+					}
+				case *ssa.UnOp, *ssa.DebugRef:
+				case *ssa.MakeClosure:
+					for _, cr := range *u.Referrers() {
+						if _, isDefer := cr.(*ssa.Defer); !isDefer {
+							private = false
+						}
+					}
+				default:
+					private = false
+				}
+			}
+			if private {
+				vc.privCells = append(vc.privCells, a)
+			}
+		}
+	}
+	return vc.privCells
 }
